@@ -137,6 +137,16 @@ CHECKS = {
              "thread-safety is exercised, not proved (the model is a pure function of the entry list).",
         technique="Coq proof (characterisation of the binary-search lookup on strictly sorted lists; insertion-sort/dedup invariants) + differential correspondence run with a property checker evaluated by vm_compute",
         design="4/C05"),
+    "C06": dict(
+        text="Coq theorems C06_symbol_map_id / C06_no_fallback (for every candidate list and order the symbol map returned is the first candidate carrying exactly the requested debug id; with no such candidate the "
+             "request fails), C06_binary_id / C06_binary_no_fallback (the same for binaries: by debug id when given, else by code id), C06_debuglink (CRC equality), C06_supplementary (build-id equality) and "
+             "C06_fat_member (with a debug id as disambiguator only a member with that id is selected, never 'the only member'). Tied to samply-symbols by running load_symbol_map / load_binary / "
+             "load_symbol_map_from_location on candidate lists over every fixture format, build-id-flipped copies, generated fat archives and corrupted companion files, and evaluating the model on the "
+             "standalone outcomes of the same candidates.",
+        note="Trusted: Coq kernel; harness h_symbols (in-memory helper, own CRC32); Python's independent LC_UUID / build-id -> debug id computation. Each candidate is abstracted to its standalone outcome "
+             "(which id samply itself reads from the file); dyld-cache candidates are not exercised.",
+        technique="Coq proof (characterisation of the first-match candidate loops, id comparisons and fat member selection) + differential correspondence run evaluated by vm_compute",
+        design="4/C06"),
 }
 
 NOT_YET = "check not built yet in this development (planned: see DESIGN.md section 4); no claim is made"
